@@ -142,7 +142,7 @@ func (k c01) runMalformed(c *mon.Ctx, workload string, i int64) {
 // variable, so every read goes through the point's key index).
 var c01Stores = []string{"add_key(k, %s)", "v = %s\nadd_key(v)\nrename(k, v)", "set_tag(k, \"x\")\nadd_key(k, %s)", "add_key(k, %s)\nset_tag(k)",
 	"add_key(k, %s)\ncast(k, \"str\")", "add_key(k, %s)\ncast(k, \"int\")", "add_key(k, %s)\ntrim(k)", "add_key(k, %s)\nstrfmt(k, \"%%v\", k)",
-	"add_key(k, %s)\nrename(k2, k)\nrename(k, k2)", "add_key(k, nil)\nset_tag(k, \"v\")\nadd_key(j, %s)", "add_key(k, %s)\nuppercase(k)", "add_key(k, %s)\ndrop_key(k)\nadd_key(k)"}
+	"add_key(k, %s)\nrename(k2, k)\nrename(k, k2)", "add_key(k, \"was a string\")\nadd_key(v2, %s)\nrename(k, v2)", "add_key(k, 41)\nadd_key(v2, %s)\nrename(k, v2)", "set_tag(k, \"tag\")\nadd_key(v2, %s)\nset_tag(v2)\nrename(k, v2)", "add_key(k, nil)\nset_tag(k, \"v\")\nadd_key(j, %s)", "add_key(k, %s)\nuppercase(k)", "add_key(k, %s)\ndrop_key(k)\nadd_key(k)"}
 var c01StoreVals = []string{"nil", "true", "7", "2.5", "\"text\"", "\"\"", "[1, \"a\", [2]]", "[]", "{\"a\": 1}", "{}", "void()", "-false", "\"[1,2]\"", "\"x\\xff\"", "\"世\\xe4\\xb8\""}
 var c01Consumers = []string{"p(len(k))", "p(k[0:1])", "p(k[::-1])", "p(k[0])", "for e in k { p(e) }", "p(k + 1)", "p(k + \"s\")", "p(1 in k)", "p(\"a\" in k)",
 	"p(!k, -k)", "p(k == k, k < 1)", "x = k\nx[0] = 1\np(x)", "k[0] = 1", "k += 1", "if k { p(1) }", "trim(k)", "cast(k, \"float\")", "uppercase(k)",
